@@ -435,3 +435,29 @@ func vfH_C16_adopt_then_recover() {
 	vfReach("done")
 	vfAssert("c16/recovers-losses-after-convergence", recovered)
 }
+
+// C16(c), large ratios: clean windows of 2S+2 packets for the ratios the README
+// mentions and the extremes d+p = 255, at the boundary phases, with a fresh and a wrapped ring.
+func vfH_C16_findperiod_clean_large() {
+	r := []vfRatio{{10, 3}, {20, 10}, {128, 127}, {254, 1}, {1, 254}}[vfPick("sender", 0, 4)]
+	S := r.d + r.p
+	ph := []int{0, 1, r.d - 1, r.d % S, S - 1}[vfPick("phase", 0, 4)]
+	s0 := vfU32("s0")
+	var tune autoTune
+	n := 2*S + 2
+	for k := 0; k < n; k++ {
+		tune.Sample((ph+k)%S < r.d, s0+uint32(k))
+	}
+	vfReach("sampled")
+	gd := tune.FindPeriod(true)
+	gp := tune.FindPeriod(false)
+	vfReach("post")
+	if n <= maxAutoTuneSamples {
+		vfAssert("findperiod/clean-run-finds-ds", gd == r.d)
+		vfAssert("findperiod/clean-run-finds-ps", gp == r.p)
+	} else {
+		// the 258-entry window cannot hold two full cycles of d+p = 255: still never a wrong answer
+		vfAssert("findperiod/data-period-is-ds-or-unknown", gd == -1 || gd == r.d)
+		vfAssert("findperiod/parity-period-is-ps-or-unknown", gp == -1 || gp == r.p)
+	}
+}
